@@ -25,7 +25,7 @@ RULE = ('objects: 8 FGGs (non-recursive multi-rule with shared factor / edgeless
 ASSUMPTIONS = ['labels argument of factorize_rule is documented to grow and is excluded from the snapshot comparison',
                'back-propagation is not a query (it is supposed to write .grad)']
 CHUNK = 2
-CASE_TIMEOUT_S = 180.0     # a case is one first query followed by every second query
+CASE_TIMEOUT_S = 1500.0    # a case is one first query followed by every continuation (thorough: every pair of continuations)
 
 
 def bounds(tier):
